@@ -88,7 +88,7 @@ func c11Prop(st *CaseStats, fam int) func(t *rapid.T) {
 		sc := GenScenario(t)
 		cfg := CaseCfg{Family: fam, MaxDocs: 6, MaxIn: 3, HoldAny: true}
 		depth := rapid.SampledFrom([]int{0, 0, 1, 1, 2}).Draw(t, "depth")
-		if fam == FamBlocks || fam == FamWide {
+		if fam == FamBlocks || fam == FamWide || fam == FamBig {
 			cfg.MaxIn = 2
 			depth = rapid.SampledFrom([]int{0, 1}).Draw(t, "depth")
 		}
@@ -224,4 +224,16 @@ func TestC11Mid(t *testing.T) {
 	st := NewStats("C11Mid", c11Rule)
 	defer st.Flush()
 	rapid.Check(t, c11Prop(st, FamMid))
+}
+
+func TestC11Wide(t *testing.T) {
+	st := NewStats("C11Wide", c11Rule)
+	defer st.Flush()
+	rapid.Check(t, c11Prop(st, FamWide))
+}
+
+func TestC11Big(t *testing.T) {
+	st := NewStats("C11Big", c11Rule)
+	defer st.Flush()
+	rapid.Check(t, c11Prop(st, FamBig))
 }
